@@ -73,7 +73,7 @@ func funcKey(fn *ssa.Function) string {
 
 // CompareSSA compares the float arithmetic of internal/fp with GOROOT's strconv — the very package the analysed
 // program links against (it is in the import graph of the library, so its SSA is already built).
-func CompareSSA(w *core.World) (*SSAReport, error) {
+func CompareSSA(w *core.World, resolve func(name string) *ssa.Function) (*SSAReport, error) {
 	ref := w.Prog.ImportedPackage("strconv")
 	if ref == nil {
 		return nil, fmt.Errorf("package strconv is not in the import graph of the analysed program")
@@ -94,6 +94,13 @@ func CompareSSA(w *core.World) (*SSAReport, error) {
 		Callee: func(a *ssa.Function) *ssa.Function {
 			if a.Pkg != fp {
 				return nil
+			}
+			if resolve != nil {
+				for _, n := range ssaRoots {
+					if resolve(n) == a {
+						return lookupFunc(ref, n)
+					}
+				}
 			}
 			return lookupFunc(ref, funcKey(a))
 		},
@@ -118,7 +125,7 @@ func CompareSSA(w *core.World) (*SSAReport, error) {
 		},
 		GlobalName: func(g *ssa.Global) string {
 			if g.Pkg == fp || g.Pkg == ref {
-				return g.Name()
+				return globalKey(g)
 			}
 			return ""
 		},
@@ -130,7 +137,13 @@ func CompareSSA(w *core.World) (*SSAReport, error) {
 	var queue []job
 	done := map[*ssa.Function]bool{}
 	for _, n := range ssaRoots {
-		queue = append(queue, job{n, lookupFunc(fp, n), lookupFunc(ref, n)})
+		here := lookupFunc(fp, n)
+		if resolve != nil {
+			if f := resolve(n); f != nil {
+				here = f // the port's function may have been renamed: it is found by its role
+			}
+		}
+		queue = append(queue, job{n, here, lookupFunc(ref, n)})
 	}
 	walkedRef := map[*ssa.Function]bool{}
 	for len(queue) > 0 {
@@ -172,4 +185,51 @@ func CompareSSA(w *core.World) (*SSAReport, error) {
 	}
 	sort.SliceStable(rep.Pairs, func(i, k int) bool { return rep.Pairs[i].Name < rep.Pairs[k].Name })
 	return rep, nil
+}
+
+
+// globalKey: package-level tables correspond by what they are — the type of their elements — when that is unique
+// in their package (the one table of [2]uint64 rows, the one []float64, …), else by name. Their contents are
+// judged separately (R04a re-derives every row).
+func globalKey(g *ssa.Global) string {
+	key := func(t types.Type) string {
+		if p, ok := t.(*types.Pointer); ok {
+			t = p.Elem()
+		}
+		var shape func(t types.Type, depth int) string
+		shape = func(t types.Type, depth int) string {
+			if depth > 4 {
+				return "…"
+			}
+			switch u := t.Underlying().(type) {
+			case *types.Basic:
+				return u.Name()
+			case *types.Slice:
+				return "[]" + shape(u.Elem(), depth+1)
+			case *types.Array:
+				return "[n]" + shape(u.Elem(), depth+1) // the length is part of the content, not of the identity
+			case *types.Struct:
+				s := "struct{"
+				for i := 0; i < u.NumFields(); i++ {
+					s += shape(u.Field(i).Type(), depth+1) + ";"
+				}
+				return s + "}"
+			case *types.Pointer:
+				return "*" + shape(u.Elem(), depth+1)
+			}
+			return types.TypeString(t, func(*types.Package) string { return "" })
+		}
+		return shape(t, 0)
+	}
+	k := key(g.Type())
+	n := 0
+	for _, m := range g.Pkg.Members {
+		if o, ok := m.(*ssa.Global); ok && key(o.Type()) == k {
+			n++
+		}
+	}
+	if n == 1 && (strings.HasPrefix(k, "[") || strings.HasPrefix(k, "struct")) {
+		return "T:" + k
+	}
+	return g.Name()
 }
